@@ -141,7 +141,7 @@ pub fn check_records(kind: FlowKind, steps: &[Step], obs: &Obs, out: &mut RunOut
         for (k, _) in &sent[1] {
             *fin.entry(*k).or_default() += 1;
         }
-        if kind == FlowKind::BatchSnapState {
+        if matches!(kind, FlowKind::BatchSnapState | FlowKind::BatchFoldSnap | FlowKind::TwoSlices) {
             fin.entry(0).or_default();
         }
         for (k, v) in &fin {
@@ -179,7 +179,12 @@ pub fn check_log(kind: FlowKind, obs: &Obs, out: &mut RunOut) -> ParsedLog {
             return pl;
         }
     }
-    if kind.has_tick() {
+    if kind == FlowKind::TwoSlices {
+        // two ticks (slice A and slice B) share the log; only slice B emits records
+        if pl.ticks.len() < obs.recs.len() {
+            out.fail(format!("log_tick_count_mismatch/{name}"), format!("{} ticks in the decision log but {} records were emitted", pl.ticks.len(), obs.recs.len()));
+        }
+    } else if kind.has_tick() {
         if pl.ticks.len() != obs.recs.len() {
             out.fail(format!("log_tick_count_mismatch/{name}"), format!("{} ticks in the decision log but {} records were emitted", pl.ticks.len(), obs.recs.len()));
             return pl;
